@@ -1,0 +1,27 @@
+//go:build verif
+
+// Contracts for the govc verifier (/verif). Comment-only; compiled only with -tags verif.
+
+package webdoc
+
+//@ func (*WebDocumentBuilder).flushBlock(group)
+//@   requires db != nil && db.document != nil && db.textBuilder != nil
+//@   ensures [C06] #text-carries-page-url implies(len(db.document.Elements) > old(len(db.document.Elements)),
+//@              typeis(db.document.Elements[len(db.document.Elements)-1], *Text) &&
+//@              as(db.document.Elements[len(db.document.Elements)-1], *Text).PageURL == db.pageURL)
+//@   ensures [C02] #append-only len(db.document.Elements) >= old(len(db.document.Elements)) && len(db.document.Elements) <= old(len(db.document.Elements)) + 1 &&
+//@              forall(i, 0 <= i && i < old(len(db.document.Elements)), db.document.Elements[i] == old(db.document.Elements[i]))
+
+//@ func (*WebDocumentBuilder).addText(text)
+//@   requires db != nil && db.document != nil
+//@   ensures [C02] #appends-one len(db.document.Elements) == old(len(db.document.Elements)) + 1 &&
+//@              forall(i, 0 <= i && i < old(len(db.document.Elements)), db.document.Elements[i] == old(db.document.Elements[i]))
+//@   ensures [C06] typeis(db.document.Elements[len(db.document.Elements)-1], *Text) && fresh(db.document.Elements[len(db.document.Elements)-1]) &&
+//@              as(db.document.Elements[len(db.document.Elements)-1], *Text).PageURL == text.PageURL
+//@   ensures db.pageURL == old(db.pageURL) && db.document == old(db.document)
+
+//@ func (*WebDocumentBuilder).AddDataTable(table)
+//@   requires db != nil && db.document != nil && db.textBuilder != nil
+//@   ensures [C06] #table-carries-page-url typeis(db.document.Elements[len(db.document.Elements)-1], *Table) &&
+//@              as(db.document.Elements[len(db.document.Elements)-1], *Table).PageURL == db.pageURL &&
+//@              as(db.document.Elements[len(db.document.Elements)-1], *Table).Element == table
